@@ -19,6 +19,9 @@ MALFORMED = ["Foo.dsdl", "Foo.1.dsdl", "Foo.1.0.0.0.dsdl", "1.2.Foo.1.0.dsdl", "
              "Foo.1.0b.uavcan", "75a09.Foo.1.0.dsdl", "Foo.1e0.0.dsdl", "Foo.0x1.0.dsdl", "Foo.1.0~.dsdl",
              # hidden entries (editor lock files, AppleDouble files): still files named *.dsdl / *.uavcan under the root
              ".Status.1.0.dsdl", "._Status.1.0.dsdl", ".7000.Pin.1.0.dsdl", ".Status.1.0.uavcan", ".#Status.1.0.dsdl"]
+# shaped like <ShortName>.<major>.<minor> with an EMPTY short name: rejected (as an invalid name) when the definition is read, that is
+# in the target role; a directory that is only searched for dependencies never reads it, so nothing is demanded there
+LATE_REJECTED = {".1.0.dsdl"}
 BAD_DIRS = ["a.b", "x.1", "dot.ted", ".drafts", ".git", ".hidden_ns"]
 
 # designations of (targets, roots) for read_files; "supported" ones must succeed, "open" ones are checked for soundness only
@@ -41,7 +44,8 @@ class C15(Check):
             "malformed kind, decoy present); non-trivial = depth >= 1 and a non-absolute designation or an alias was used, or a "
             "malformed name was present")
     TIERS = {"quick": {"runs": 1600, "budget_s": 50}, "thorough": {"runs": 80000, "budget_s": 900}}
-    ASSUMPTIONS = ["numeric components that only Python's int() accepts (+1, 1_0, leading zeros, non-ASCII digits) are not generated",
+    ASSUMPTIONS = ["a file name with an empty short name (.1.0.dsdl) is demanded to be rejected only where the definition is read (target role)",
+                   "numeric components that only Python's int() accepts (+1, 1_0, leading zeros, non-ASCII digits) are not generated",
                    "a bare root name with a RELATIVE target is only used when no ancestor directory has the same name and no other directory of that name exists under cwd (otherwise the designation is ambiguous); with an absolute target the working directory may hold an unrelated entry of that name"]
 
     def generate(self, rng: random.Random, r: int, tier: str) -> dict:
@@ -81,7 +85,12 @@ class C15(Check):
             if not defs:
                 defs.append({"name": rn + ".Only", "ver": [1, 0], "port": None, "ext": "dsdl", "dep": False,
                              "secs": [{"union": False, "seal": "sealed", "hdr": None, "items": []}]})
-            roots.append({"dir": "w/d%d/%s" % (i, rn), "name": rn, "defs": defs})
+            rdir = "w/d%d/%s" % (i, rn)
+            if rng.random() < 0.15:
+                # a directory ABOVE the root namespace directory carries the root's name in another letter case (a checkout folder)
+                variant = rng.choice([v for v in (rn.upper(), rn.swapcase(), rn.capitalize(), rn.lower()) if v != rn])
+                rdir = "w/d%d/%s/%s/%s" % (i, variant, rng.choice(["checkout", "types", variant]), rn)
+            roots.append({"dir": rdir, "name": rn, "defs": defs})
         ws = {"roots": roots}
         # case-insensitive directory clashes would make two namespaces differ only by case: regenerate names apart
         uni = Universe(ws)
@@ -101,7 +110,11 @@ class C15(Check):
         for _ in range(rng.randint(3, 6)):
             if rng.random() < 0.3:
                 ri = rng.randrange(nroots)
-                scn["reads"].append({"op": "rn", "root": W.dir_arg(rng, uni, ri), "lookups": [], "key": rng.randrange(1 << 30),
+                lk = []
+                if nroots == 2 and rng.random() < 0.4:
+                    # the other root is passed in the lookup role only
+                    lk = [W.dir_arg(rng, uni, 1 - ri)]
+                scn["reads"].append({"op": "rn", "root": W.dir_arg(rng, uni, ri), "lookups": lk, "key": rng.randrange(1 << 30),
                                      "cwd": rng.choice(["", "w", roots[ri]["dir"], roots[ri]["dir"].rsplit("/", 1)[0]]), "allow_unreg": True})
                 continue
             des, _sup = rng.choice(DESIGNATIONS)
@@ -214,7 +227,13 @@ class C15(Check):
                 if op["op"] == "rn":
                     ri = [j for j, r in enumerate(uni.roots) if r["dir"] == op["root"]["p"]][0]
                     want = uni.keys_of_root(ri)
-                    in_scanned = mal is not None and mal["root"] == ri
+                    lk_roots = [j for j, r in enumerate(uni.roots) for a in op.get("lookups") or [] if r["dir"] == a["p"]]
+                    in_scanned = mal is not None and (mal["root"] == ri or mal["root"] in lk_roots)
+                    if in_scanned and mal["root"] != ri:
+                        if mal["path"].rsplit("/", 1)[-1] in LATE_REJECTED:
+                            in_scanned = False
+                        else:
+                            out.stats["malformed_in_lookup_role_only"] += 1
                     if in_scanned:
                         out.stats["malformed_reached"] += 1
                         if res["ok"] or classify_exc(res["exc"]) != "IDE":
@@ -232,6 +251,13 @@ class C15(Check):
                         if k not in targets:
                             targets.append(k)
                     des = op.get("des")
+                    if mal is not None and sup.get(des, False) and mal["root"] in {uni.root_of[k] for k in targets} and mal["path"].rsplit("/", 1)[-1] not in LATE_REJECTED:
+                        # the root namespace directory of every target is listed: a malformed name under it is rejected by read_files too
+                        out.stats["malformed_reached_by_read_files"] += 1
+                        if res["ok"] or classify_exc(res["exc"]) != "IDE":
+                            out.fail("C15.malformed", "read %d (%s): %s is under the root of a target but read_files %s" % (i, des, mal["path"], "returned" if res["ok"] else "raised " + type(res["exc"]).__name__),
+                                     "rf-malformed:" + mal["path"].rsplit("/", 1)[-1] if mal["kind"] == "file" else "rf-malformed-dir")
+                        continue
                     if not res["ok"]:
                         if mal is not None and classify_exc(res["exc"]) == "IDE":
                             # read_files lists the targets' roots as lookup directories: a malformed name there may be reported
